@@ -328,7 +328,7 @@ def suites_for(pid, rng, tier):
 
     def nest_sim(name, cfgs=("std", "alloc"), skip=()):
         """every nest the harness builds - join of joins, a.join(b) of joins, join of races, race of joins, merge / chain / zip of merges, a FutureGroup
-           of joins, a StreamGroup of merges - in the std and alloc builds, predicted by composing the extracted model with itself (runner/main.ml nest_trace):
+           of joins, a StreamGroup of merges - in the std and alloc builds, predicted by the composed model (coq/Model/Nest.v nest_run, extracted):
            kind "nsim" = like "scan" (model trace compared under the projection, monitor on the implementation's trace), without the corpus and
            without the extracted single-level predicates"""
         for c in cfgs:
